@@ -208,4 +208,29 @@ theorem select_ds (k : Kind) (sks : List Sk) (sel : Nat) (hsel : sel < 2 ^ 32) :
   selectScaled_eq k sks sel hsel
 example : (2000 : Nat) < 2 ^ 32 := by decide
 
+
+/-- **T-gather_ds**: `calculate_gather_stats` computes the same statistics from a match that it
+downsamples on the fly as from an explicitly downsampled copy of that match (and refuses, with
+`CannotUpsampleScaled`, a match that is coarser than the query — the query is never downsampled).
+`hsc` says that the downsampled copy reports the query's scaled value; for a scaled match strictly finer
+than the query this is the round trip `scaled_for_max_hash (max_hash_for_scaled s) = s` at
+`s = scaled(query)` (C14), see `gather_ds_scaled`. -/
+theorem gather_ds (k : Kind) (oq rq m m' : Sk) (ms : Nat) (hle : m.scaled ≤ rq.scaled)
+    (h : downsampleScaled k m rq.scaled = .ok m') (hsc : m'.scaled = rq.scaled) :
+    gatherStats k oq rq m ms = gatherStats k oq rq m' ms := by
+  have c1 : ¬ m.scaled > rq.scaled := by omega
+  have c2 : ¬ m'.scaled > rq.scaled := by omega
+  have h' : downsampleScaled k m' rq.scaled = .ok m' := by rw [← hsc]; exact ds_same k m'
+  simp only [gatherStats, c1, c2, if_false, h, h', bind, Except.bind]
+theorem gather_refuses_coarser_match (k : Kind) (oq rq m : Sk) (ms : Nat) (h : m.scaled > rq.scaled) :
+    gatherStats k oq rq m ms = .error .CannotUpsampleScaled := by
+  simp [gatherStats, h]
+theorem gather_ds_scaled (k : Kind) (oq rq m : Sk) (ms : Nat) (hm : m.Scaled) (h0 : m.scaled ≠ 0)
+    (hlt : m.scaled < rq.scaled) (hM : maxHashForScaled rq.scaled ≠ 0)
+    (hrt : scaledForMaxHash (maxHashForScaled rq.scaled) = rq.scaled) :
+    gatherStats k oq rq m ms = gatherStats k oq rq (belowSk (maxHashForScaled rq.scaled) m) ms :=
+  gather_ds k oq rq m _ ms (by omega) (downsample_exact k hm h0 hlt hM) hrt
+example : exS.Scaled ∧ exS.scaled ≠ 0 ∧ exS.scaled < 2000 ∧ maxHashForScaled 2000 ≠ 0 ∧
+    scaledForMaxHash (maxHashForScaled 2000) = 2000 := ⟨exS_scaled, by decide, by decide, by decide, by decide⟩
+
 end Sourmash.C04
